@@ -218,7 +218,7 @@ def run(ctx):
                 break
     for i in range(4 if ctx.quick else 100):
         one_reader(ctx, r.fork(), legacy=(i % 3 == 2))
-    ctx.cov["rule"] = ("readers parked after each of their own calls on the log (open/read/close) while a writer runs to completion, on logs with and without a torn tail; "
+    ctx.cov["rule"] = ("readers parked at each of their calls on a torn log while claim / new task{state} repair the tail and append, and on both store layouts while plan / compact publish a new file (enumerated); readers parked after each of their own calls on the log (open/read/close) while a writer runs to completion, on logs with and without a torn tail; "
                        "for generated pre-states × writer kinds (claim, set, create-with-state, sequence chain, prune --yes, plan, compact): the real writer is parked (strace SIGSTOP injection) "
                        "right after each of its system calls on the store (quick: after every open/flock/write/fsync/rename), `list --json --all/--epics` run meanwhile must succeed and show "
                        "exactly the state before or after the command; then the writer is resumed and must finish; reader programs traced (no flock, log opened once read-only)")
